@@ -88,6 +88,29 @@ def run(c, facts, tier):
         cut_ok = all(x["cut"] for x in fr[: lastkept + 1])
         c.ob("C18.cut", a.site, a.lit, cut_ok, "blank and argument after %r are under cut_err: the error keeps its labels instead of being reset by the enclosing alt" % a.lit if cut_ok else "argument of %r is not under cut_err: on a bad argument alt() backtracks, the labels are lost and the word is reported as an unknown token" % a.lit, nontrivial=False)
     c.floor("argument-taking keywords", narg, 40)
+    # C18.position: a hard error inside an argument leaves the input at the start of the offending word
+    npos = 0
+    for a in alts:
+        if a.lit is None:
+            continue
+        ctor = kw.ctor_of_transform(a, scope)
+        if ctor is None or ctor.startswith("Token::"):
+            continue
+        for x in kw.flatten_rest(g, a.rest):
+            if not x["keep"]:
+                continue
+            bad = hard_errors_after_consumption(g, x["n"])
+            npos += 1
+            c.ob(
+                "C18.position",
+                a.site,
+                "%s argument" % a.lit,
+                not bad,
+                "every hard error in the argument parser is raised before anything of the word is consumed, or inside and_then (which rewinds to the start of the word)" if not bad else "hard error raised after part of the word was consumed and outside and_then: %s — the re-read word is the remainder (or empty), not the offending word" % bad[:2],
+                witness="%s <invalid word>" % a.lit if bad else None,
+                nontrivial=False,
+            )
+    c.floor("arguments checked for error position", npos, 40)
     # C18.no-collision: labels below the keyword level never equal a category label
     inner_labels = set()
     for a in alts:
@@ -197,8 +220,69 @@ def run(c, facts, tier):
     c.control("C18.total", not pat_matches({"k": "tstruct", "segs": ["Some"], "elems": []}, "N"), "pattern matcher distinguishes Some from None")
 
 
+def hard_errors_after_consumption(g, ir, consumed=False, depth=0, seen=None):
+    """List of hard-error nodes (cut_err around a parser that may fail) reachable after a non-nullable parser has consumed
+    input, outside the inner parser of an and_then."""
+    seen = seen if seen is not None else set()
+    t = ir["t"]
+    out = []
+    if depth > 40:
+        return out
+    if t == "cut":
+        if consumed:
+            out.append(peg.show(ir)[:60])
+        # inside the cut the same rule applies to nested cuts further right
+        out += hard_errors_after_consumption(g, ir["p"], consumed, depth + 1, seen)
+        return out
+    if t == "andthen":
+        out += hard_errors_after_consumption(g, ir["outer"], consumed, depth + 1, seen)
+        return out  # inner failures rewind to the start of the outer match
+    if t == "seq":
+        cons = consumed
+        for i in ir["items"]:
+            out += hard_errors_after_consumption(g, i["p"], cons, depth + 1, seen)
+            if not g.nullable(i["p"]):
+                cons = True
+        return out
+    if t == "alt":
+        for a_ in ir["alts"]:
+            out += hard_errors_after_consumption(g, a_, consumed, depth + 1, seen)
+        return out
+    if t in ("ctx", "map", "value", "trymap", "verify", "fold", "rep", "peek"):
+        return hard_errors_after_consumption(g, ir["p"], consumed, depth + 1, seen)
+    if t in ("reptill", "sep"):
+        out += hard_errors_after_consumption(g, ir["p"], consumed, depth + 1, seen)
+        other = ir["stop"] if t == "reptill" else ir["sep"]
+        out += hard_errors_after_consumption(g, other, True, depth + 1, seen)
+        return out
+    if t == "ref":
+        key = (ir["fn"], tuple(sorted((ir.get("targs") or {}).items())), consumed)
+        if key in seen:
+            return out
+        seen.add(key)
+        return hard_errors_after_consumption(g, g.deref(ir), consumed, depth + 1, seen)
+    if t == "fnbody":
+        cons = consumed
+        for p_ in g.body_seq(ir):
+            out += hard_errors_after_consumption(g, p_, cons, depth + 1, seen)
+            if not g.nullable(p_):
+                cons = True
+        return out
+    return out
+
+
 def fold_semantics(newfn, facts):
     probs = []
+    # the fold visits every context entry, in order
+    folds = find_all(newfn.body, lambda n: n.get("k") == "mcall" and n["m"] == "fold")
+    if len(folds) != 1:
+        probs.append("expected exactly one fold over the context list, found %d" % len(folds))
+    else:
+        base, chain = rx.method_chain(folds[0]["recv"])
+        ms = [m_ for m_, _, _ in chain]
+        pname = newfn.params[0][0] if newfn.params else None
+        if not (rx.is_var(base, pname) and ms in (["iter"], ["into_iter"])):
+            probs.append("the fold does not visit every context entry in order: %s.%s" % (src(base), ".".join(ms)))
     ms = find_all(newfn.body, lambda n: n.get("k") == "match")
     if not ms:
         return ["no match in SyntaxContext::new"]
